@@ -307,7 +307,7 @@ def raw_lens(table, i):
     return lens
 
 
-def table_menus(tables, triples, mats):
+def table_menus(tables, triples, mats, small=False):
     """Fill the payload length menu (`lens`) of every table from the payloads of its first triple."""
     first = {}
     for tr in triples:
@@ -326,6 +326,8 @@ def table_menus(tables, triples, mats):
                 s["lens"] = [n for n in s["lens"] if n <= rm]       # payload sizes up to the next segment's offset
             if not s["lens"]:
                 raise Machinery(f"no payload fits segment {s['name']} of table {t['sig']}")
+            if small and s["name"] == "xmcd" and len(s["lens"]) > 2:
+                s["lens"] = [s["lens"][0], s["lens"][-1]]       # XMCD parsing costs ~0.5 s: shortest and longest block only
 
 
 def version_bytes(name, v):
@@ -583,17 +585,16 @@ def plan(tier, cases, tables, triples, r):
         trs = list(trs)
         r.shuffle(trs)
         if tier == "quick":
-            # a covering subset: every (segment, presence), (segment, length), requested start of the table at least once,
-            # then at least two cases per triple
+            # every case with the full image (start 0: all subsets x all lengths of the small menu), and for the later starts one
+            # length assignment per (start, presence vector); then at least one case per triple
             chosen, seen = [], set()
             for c in cs:
-                feats = {("req", c["req"])} | {("p", i, p) for i, p in enumerate(c["present"])} | {("l", i, n) for i, n in enumerate(c["plen"])} \
-                        | {("rp", c["req"], i, p) for i, p in enumerate(c["present"])}
-                if not feats <= seen:
-                    seen |= feats
+                feat = (c["req"], tuple(c["present"]))
+                if c["req"] == 0 or feat not in seen:
+                    seen.add(feat)
                     chosen.append(c)
-            rest = [c for c in cs if c not in chosen]
-            n = max(len(chosen), 2 * len(trs))
+            rest = [c for c in cs if c["req"] != 0 and c not in chosen]
+            n = max(len(chosen), len(trs))
             while len(chosen) < n and rest:
                 chosen.append(rest.pop())
             k = 0
@@ -618,13 +619,13 @@ def run(tier):
     tables, triples = inventory()
     mats = Materials()
     mats.prepare(tables, triples)
-    table_menus(tables, triples, mats)
+    table_menus(tables, triples, mats, small=(tier == "quick"))
     table_file = os.path.join(scratch(), "c14-tables.json")
     json.dump(tables, open(table_file, "w"))
     say(f"[C14] {len(triples)} (family, revision, memory type) triples, {len(tables)} distinct segment tables, payloads built ({v.timer.s()}s)")
 
     # ---- MC + GEN
-    mc = tlc.mc("C14", "BimgMC", "BimgMC.cfg", env={"TABLE_FILE": table_file, "GEN_FULL": "1"}, workers=8, deadlock=False, heap="6g", timeout=900,
+    mc = tlc.mc("C14", "BimgMC", "BimgMC.cfg", env={"TABLE_FILE": table_file, "GEN_FULL": "0" if tier == "quick" else "1"}, workers=8, deadlock=False, heap="6g", timeout=900,
                 require_actions=("GRefuse", "GBuild", "Gap", "Seg", "End", "Parse", "ParseSeg", "Done"))
     v.add_mc(mc)
     cases = mc.json_prints()
@@ -665,8 +666,9 @@ def run(tier):
     v.cov["rule"] = (
         f"cases = initial states of BimgMC: for each of the {len(tables)} distinct segment tables of the device database, every subset of optional "
         "segments x payload length menu (1, size-1, size, up to the next offset; three real container sizes; every XMCD length) x requested start "
-        "(0, every static segment start, one below, one above); thorough executes every case, quick a covering subset (every presence, length and "
-        "start of every table) with at least two cases per (family, revision, memory type); a case is non-trivial if the real image was built and "
+        "(0, every static segment start, one below, one above); thorough executes every case of the full menu; quick uses the menu without "
+        "'size-1' / most 'one below' starts and executes every case with start 0 plus one length assignment per (start, subset), at least one case "
+        "per (family, revision, memory type); a case is non-trivial if the real image was built and "
         "read (or the build was refused); distinct by (triple, case, API path)")
     v.assumptions += [
         "application containers are mandatory, the secondary container set and all header blocks except the image version are optional",
@@ -686,31 +688,35 @@ def replay(path):
     t0 = w["trace"]
     info = t0["info"]
     tables, triples = inventory()
-    tb = next((i for i, t in enumerate(tables) if t["sig"] == info["sig"]), None)
     triple = next((tr for tr in triples if tr[:3] == (info["family"], info["revision"], info["mem_type"])), None)
-    if tb is None or triple is None or triple[3] != tb:
-        say(f"replay: table {info['sig']} / triple {info['family']},{info['revision']},{info['mem_type']} no longer exists in the device database")
+    if triple is None or tables[triple[3]]["sig"] != info["sig"]:
+        say(f"replay: {info['family']}/{info['revision']}/{info['mem_type']} with table {info['sig']} no longer exists in the device database")
         return 2
-    mats = Materials()
-    mats.prepare(tables, [tr for tr in triples if tr[3] == tb][:1] + [triple])
-    table_menus(tables, [tr for tr in triples if tr[3] == tb][:1] + [tr for tr in triples], mats) if False else None
+    tb = triple[3]
     first = {}
     for tr in triples:
         first.setdefault(tr[3], tr)
-    table_menus([tables[tb]], [first[tb][:3] + (0,)], mats)
+    mats = Materials()
+    mats.prepare(tables, list(first.values()) + [triple])
+    table_menus(tables, triples, mats)
     table_file = os.path.join(scratch(), "c14-tables.json")
-    for i, t in enumerate(tables):
-        t.setdefault("segs", [])
-        for s in t["segs"]:
-            s.setdefault("lens", [1])
     json.dump(tables, open(table_file, "w"))
-    case = {"tb": tb + 1, "present": t0["present"], "plen": t0["plen"], "req": t0["req"]}
+    # the case as TLC emitted it: lengths of the table's menu (the executor maps them to this family's payloads)
+    old = w["table"]["segs"]
+    plen = []
+    for i, n in enumerate(t0["plen"]):
+        lens = tables[tb]["segs"][i]["lens"]
+        k = old[i]["lens"].index(n) if n in old[i].get("lens", []) else 0
+        plen.append(n if (n in lens or n == 0) else lens[min(k, len(lens) - 1)])
+    case = {"tb": tb + 1, "present": t0["present"], "plen": plen, "req": t0["req"]}
     t = Exec(tables, mats).run(t0["id"], case, triple, info["mode"])
-    say(json.dumps({k: t[k] for k in ("present", "plen", "req", "ev")})[:1500])
+    menu = mats.get(triple[0], triple[1], triple[2], tables[tb], max(i for i, p in enumerate(case["present"]) if p and tables[tb]["segs"][i]["off"] >= 0))
+    t["info"]["selfparse"] = all(m.get("selfparse", True) for m in menu) if menu else True
+    say(json.dumps({k: t[k] for k in ("present", "plen", "req", "ev")})[:2000])
     rej, _ = tlc.tv("C14", "BimgTrace", [strip(t)], env={"TABLE_FILE": table_file})
     if rej:
-        say(f"VIOLATION property=C14 replay={path}")
         m = list(rej.values())[0][0]
+        say(f"VIOLATION property=C14 replay={path}")
         say(f"  key={key_of(t, tables, m)} rejected at event #{m + 1}: {json.dumps(t['ev'][min(m, len(t['ev']) - 1)])[:300]}")
         return 1
     say("replay: trace accepted by the spec")
